@@ -1,40 +1,15 @@
 import RossModel.Lemmas.Event
+import RossModel.Accept
 /-!
 # C05: the rejection reason a decoder reports is one that truly applies
 -/
 namespace Ross
 
-/-- shortest payload of a kind -/
-def minLen : Kind → Nat
-  | .bootloaderHello | .programmerHello | .ack | .gatewayDiscover => 4
-  | .startFirmwareUpgrade | .startConfigUpgrade => 8
-  | .data => 6
-  | .configuratorHello | .systemTick => 2
-  | .bcmChange => 7
-  | .buttonPressed | .buttonReleased => 5
-  | .setDeviceAddress | .relaySet => 6
-  | .message => 14
-  | .bcmAnimate => 11
 
-/-- size of a serialized brightness value with the given tag -/
-def bcmLen (tag : UInt8) : Option Nat :=
-  if tag = 0 ∨ tag = 1 then some 2 else if tag = 2 then some 4 else if tag = 3 ∨ tag = 4 then some 5
-  else if tag = 5 then some 6 else none
 
-/-- the payload length the layout of kind `k` requires, given what the packet itself declares
-(`none`: too short to declare it, or an unknown variant tag) -/
-def requiredLen (k : Kind) (d : List UInt8) : Option Nat :=
-  match k with
-  | .data => match d[4]?, d[5]? with
-    | some h, some l => some ((be16 h l).toNat + 6)
-    | _, _ => none
-  | .bcmChange => match d[5]? with
-    | some t => (bcmLen t).map (· + 5)
-    | none => none
-  | .bcmAnimate => match d[9]? with
-    | some t => (bcmLen t).map (· + 9)
-    | none => none
-  | k => some (minLen k)
+
+
+
 
 /-- the variant tag of the kinds that have one is outside the table -/
 def unknownTag (k : Kind) (d : List UInt8) : Prop :=
